@@ -235,5 +235,13 @@ def quiesce(pipe, timeout=10.0, extra_activity=None):
         if stuck.wait_idle(activity, timeout=max(0.01, min(0.05, deadline - time.monotonic())), settle=0.002, samples=3):
             if stuck.wait_idle(activity, timeout=max(0.05, min(0.3, deadline - time.monotonic())), settle=0.008, samples=6):
                 if pipe.inbox_empty():
-                    return True
+                    # patience that scales with the load of the machine: let a parked harness thread be woken a few times; a
+                    # library thread that was woken before this point gets the processor in about the same time
+                    before = activity()
+                    took = stuck.scheduler_roundtrips(3)
+                    if took < 0.005 and activity() == before:
+                        return True
+                    if stuck.wait_idle(activity, timeout=max(0.05, min(0.3 + 4 * took, deadline - time.monotonic())), settle=0.008, samples=4) \
+                            and activity() == before and pipe.inbox_empty():
+                        return True
     return False
